@@ -92,12 +92,22 @@ class JobControl:
         return agent
 
     def get_queued(self):
-        return list(self._queue) if self._queue is not None else None
+        result = None
+        if self._acquire_lock():
+            try:
+                result = list(self._queue)
+            finally:
+                self._release_lock()
+        return result
 
     def get_background(self):
-        if self._background is None:
-            return None
-        return self._background.values()
+        result = None
+        if self._acquire_lock():
+            try:
+                result = list(self._background.values())
+            finally:
+                self._release_lock()
+        return result
 
     def get_current(self):
         return self._active_agent
@@ -158,8 +168,14 @@ class JobControl:
         return result
 
     def has_jobs(self) -> bool:
-        return (len(self._queue) > 0 or len(self._background) > 0 or
-                self._active_agent is not None)
+        result = True
+        if self._acquire_lock():
+            try:
+                result = (len(self._queue) > 0 or len(self._background) > 0
+                          or self._active_agent is not None)
+            finally:
+                self._release_lock()
+        return result
 
     def _run_next_job(self) -> None:
         if self._acquire_lock():
